@@ -157,6 +157,11 @@ def gen_true(rng, family, wide=False):
                 lo, hi = cls.get_default_lower_limit(name), cls.get_default_upper_limit(name)
                 if not (lo * 10 <= p[0] <= hi / 10):
                     ok = False
+                # standard range: every value must be representable to 1e-3 by lmfit's bounded-parameter transform inside the
+                # class-default box (values are spaced (hi-lo)*2**-54 apart near the lower limit); the wide range keeps such
+                # items, the check judges them under the known-finding key C12/recovery-limit-range-resolution
+                if not wide and math.isfinite(hi) and (hi - lo) * 2.0**-54 / p[0] > 1e-3:
+                    ok = False
         if ok:
             return spec, f_lo, f_hi, ppd
 
